@@ -6,10 +6,11 @@
    STATUS AFTER THE DEEPENING ROUND: reopen_contiguous is FULL for one table over all guarded histories
    with crashes inside (C24_reopen_contiguous, via the full table invariant DInv of
    Storage/FreezerTableData.v, preserved by every operation: Storage/FreezerTableOps.v); the freezer level
-   is C24_freezer_crash_safe (cross-table condition derived from the history; C24_freezer_crash_safe_partial
-   is the older version with that condition as a hypothesis).  readable_is_appended: the
-   surviving bytes are proved identical to the live table's bytes; that the live table's bytes are the
-   encoding of what was appended is not a theorem.  synced_survive: FULL for one table (C24_synced_survive).  The older,
+   is C24_freezer_crash_safe_repeated (histories with crashes + NewFreezer inside, any number of times) and
+   C24_freezer_crash_safe (histories ending with the crash; cross-table condition derived from the history; C24_freezer_crash_safe_partial
+   is the older version with that condition as a hypothesis).  readable_is_appended:
+   C24_readable_is_appended_partial (every exposed item reads back the appended item; histories in which a
+   truncateTail drops whole data files are not covered).  synced_survive: FULL for one table (C24_synced_survive).  The older,
    weaker statements below are kept.
 
    FULL STATEMENTS (DESIGN.md C24) and what is proved of them:
@@ -48,7 +49,7 @@
          crash theorems into one statement over freezer histories; both are covered by the freezer-level
          correspondence (kind 9) and its Go oracle.
      zero_tail_detected  : C24_zero_tail_detected, FULL, with the undetectable case as its exact exception. *)
-From GV Require Import Lib.Tactics Storage.FreezerTable Storage.FreezerTableProofs Storage.FreezerTableInv Storage.Freezer Storage.FreezerProofs Storage.FreezerSuccess Storage.FreezerTableData Storage.FreezerCompose Storage.FreezerTableOps Storage.FreezerHist Storage.FreezerCross.
+From GV Require Import Lib.Tactics Storage.FreezerTable Storage.FreezerTableProofs Storage.FreezerTableInv Storage.Freezer Storage.FreezerProofs Storage.FreezerSuccess Storage.FreezerTableData Storage.FreezerCompose Storage.FreezerTableOps Storage.FreezerHist Storage.FreezerCross Storage.FreezerReopen Storage.FreezerContent.
 Local Open Scope N_scope.
 
 (* checkIndex truncates a zero-filled tail exactly at the first zero entry, unless the last genuine
@@ -160,7 +161,8 @@ Theorem C24_reopen_contiguous_state : forall maxsz t ci cd (cm : bool),
        exists f f', dget (efile e) (t_data t) = Some f /\ dget (efile e) (t_data t') = Some f' /\
                     eoff e <= fsize f' /\
                     firstn (N.to_nat (eoff e)) (fbytes f') = firstn (N.to_nat (eoff e)) (fbytes f)) /\
-    t_msyn t' = t_mcur t' /\ mvtail (t_mcur t') = t_hidden t' /\ mflush (t_mcur t') = mflush (t_mcur t).
+    t_msyn t' = t_mcur t' /\ mvtail (t_mcur t') = t_hidden t' /\ mflush (t_mcur t') = mflush (t_mcur t) /\
+    t_headbytes t' = eoff (lastF t).
 Proof. exact open_crash_ok. Qed.
 Print Assumptions C24_reopen_contiguous_state.
 
@@ -202,6 +204,31 @@ Theorem C24_reopen_contiguous : forall maxsz encode t0 hs ci cd (cm : bool),
                     firstn (N.to_nat (eoff e)) (fbytes f') = firstn (N.to_nat (eoff e)) (fbytes f)).
 Proof. exact table_crash_safe. Qed.
 Print Assumptions C24_reopen_contiguous.
+
+(* READABLE_IS_APPENDED (one table; compression = an abstract codec with decode (encode x) = Some x, the raw
+   table being the identity instance).  The ghost list [bl] computed by [grun] is the sequence of appended
+   items that still have an index entry: an append adds its items at the end (they get the item numbers
+   items, items+1, ...), truncateHead / a crash + reopen keep the first |entries| of them, a reset empties
+   it.  After every guarded history (append batches with roll-over, truncateHead, Sync and its interior
+   points, crashes + reopens inside, truncateTail that moves the virtual tail or resets) every item that is
+   not hidden reads back exactly the item appended at its number, and after one more crash (every cut,
+   every zero fill, either metadata record) every item the reopened table exposes does.
+   PARTIAL only in [nodropped]: histories in which a truncateTail drops whole data files (rewrites the index
+   with a new tail marker) are not covered by this theorem; they are by C24_reopen_contiguous (bytes kept)
+   and by the correspondence run. *)
+Theorem C24_readable_is_appended_partial : forall encode decode,
+  (forall x, decode (encode x) = Some x) ->
+  forall maxsz t0 hs,
+  maxsz < two32 -> init true = Ok t0 -> hguarded maxsz encode t0 hs -> nodropped encode maxsz t0 hs ->
+  let '(t, bl) := grun encode maxsz t0 [] hs in
+  (forall k b, nth_error bl k = Some b -> t_hidden t <= t_offset t + N.of_nat k ->
+               retrieve decode t (t_offset t + N.of_nat k) = Ok b) /\
+  (forall ci cd (cm : bool), cut_ok t ci cd ->
+     exists t', crash_reopen true t ci cd cm = Ok t' /\ t_offset t' = t_offset t /\
+       forall i, t_hidden t' <= i -> i < t_items t' ->
+         exists b, nth_error bl (N.to_nat (i - t_offset t)) = Some b /\ retrieve decode t' i = Ok b).
+Proof. exact table_readable. Qed.
+Print Assumptions C24_readable_is_appended_partial.
 
 (* SYNCED_SURVIVE, FULL for one table.  The ghost [S] computed by [srun] along the history is the item count
    at the last completed Sync, lowered to the item count after every later step (so: the items covered by
@@ -297,6 +324,26 @@ Theorem C24_freezer_crash_safe : forall maxsz f0 h (cs : list crashed),
                  s <= fz_head f' /\ fz_tail f' <= hh).
 Proof. exact freezer_crash_safe_full. Qed.
 Print Assumptions C24_freezer_crash_safe.
+
+(* THE FREEZER THEOREM OVER HISTORIES WITH REPEATED CRASHES: NewFreezer after any crash re-establishes the
+   freezer invariant (fx_reopen), so histories may contain crashes of every table + NewFreezer at any point,
+   any number of times; after every such guarded history and one more crash state of every table,
+   NewFreezer succeeds, the invariant holds again, all tables end at exactly [Tail, Ancients), Ancients is
+   the least head recovered by a non-empty table, and any range recovered by every table is kept. *)
+Theorem C24_freezer_crash_safe_repeated : forall maxsz f0 hs cuts,
+  maxsz < two32 -> FXInv maxsz f0 -> fz_hguarded maxsz f0 hs ->
+  let f := fz_hhrun maxsz f0 hs in
+  crash_guard f cuts ->
+  let cs := crashes_of f cuts in
+  exists f', fz_open true (map cr_disk cs) = Ok f' /\ FXInv maxsz f' /\
+    length (fz_tables f') = length cs /\
+    Forall (fun t' => t_items t' = fz_head f' /\ t_hidden t' = fz_tail f') (fz_tables f') /\
+    fz_tail f' <= fz_head f' /\
+    (forall c, In c cs -> dur_head (cr_t c) <> 0 -> fz_head f' <= dur_head (cr_t c)) /\
+    (forall s hh, cs <> [] -> hh < s -> (forall c, In c cs -> s <= dur_head (cr_t c) /\ rec_tail c <= hh) ->
+                 s <= fz_head f' /\ fz_tail f' <= hh).
+Proof. exact freezer_crash_safe_repeated. Qed.
+Print Assumptions C24_freezer_crash_safe_repeated.
 
 Theorem C24_empty_freezer_inv : forall maxsz,
   (exists f0, fz_open true (repeat (f_empty, [], None) 2) = Ok f0 /\ FXInv maxsz f0) /\
